@@ -581,3 +581,58 @@ pub fn macroize_helper_attrs(head: &str, item: &str) -> Option<String> {
     let params: Vec<String> = (0..metas.len()).map(|k| format!("$m{k}:meta")).collect();
     Some(format!("macro_rules! mk_item {{ ({}) => {{ {head}\n{out} }} }}\nmk_item!({});\n", params.join(", "), metas.join(", ")))
 }
+
+/// Like `macroize_helper_attrs`, but only the VALUE expression of each `#[default(expr ..)]` attribute arrives from
+/// the macro call, as an `expr` fragment (`_` and empty argument lists stay in the macro body).
+pub fn macroize_default_exprs(head: &str, item: &str) -> Option<String> {
+    let mut out = String::new();
+    let mut exprs: Vec<String> = Vec::new();
+    let mut rest = item;
+    while let Some(pos) = rest.find("#[default(") {
+        let start = pos + "#[default(".len();
+        out.push_str(&rest[..start]);
+        // the first top-level argument
+        let b: Vec<char> = rest[start..].chars().collect();
+        let mut depth = 0i32;
+        let mut in_str = false;
+        let mut j = 0;
+        while j < b.len() {
+            let c = b[j];
+            if in_str {
+                if c == '\\' {
+                    j += 1;
+                } else if c == '"' {
+                    in_str = false;
+                }
+            } else if c == '"' {
+                in_str = true;
+            } else if c == '(' || c == '[' || c == '{' {
+                depth += 1;
+            } else if c == ')' || c == ']' || c == '}' {
+                if depth == 0 {
+                    break;
+                }
+                depth -= 1;
+            } else if c == ',' && depth == 0 {
+                break;
+            }
+            j += 1;
+        }
+        let arg: String = b[..j].iter().collect();
+        let a = arg.trim();
+        if a.is_empty() || a == "_" || a.starts_with("bound(") {
+            out.push_str(&arg);
+        } else {
+            out.push_str(&format!("$e{}", exprs.len()));
+            exprs.push(a.to_string());
+        }
+        let consumed: usize = b[..j].iter().map(|c| c.len_utf8()).sum();
+        rest = &rest[start + consumed..];
+    }
+    out.push_str(rest);
+    if exprs.is_empty() {
+        return None;
+    }
+    let params: Vec<String> = (0..exprs.len()).map(|k| format!("$e{k}:expr")).collect();
+    Some(format!("macro_rules! mk_item {{ ({}) => {{ {head}\n{out} }} }}\nmk_item!({});\n", params.join(", "), exprs.join(", ")))
+}
